@@ -21,6 +21,20 @@ func visibleASCII(b byte) bool {
 	return b > ' ' && b <= '~' && b != ',' && b != '"' && b != '\\' && b != '<' && b != '>' && b != '&' && b != '%'
 }
 
+func alnum(b byte) bool {
+	return (b >= 'a' && b <= 'z') || (b >= 'A' && b <= 'Z') || (b >= '0' && b <= '9')
+}
+
+// appHeaderName: an application header name with a symbolic character, under prefixes that sit next to
+// protocol control headers without being one (Content-Type/-Encoding/-Length, Accept-Encoding, ... are
+// control headers; "Content-?q", "Accept-?q", "?q" are not). Canonical form, as net/http delivers keys.
+func appHeaderName(tag string) string {
+	pfx := []string{"X-", "Content-", "Accept-", ""}[verifChoose(tag+".prefix", 4)]
+	c := verifNondetByte(tag + ".char")
+	verifAssume(alnum(c))
+	return http.CanonicalHeaderKey(pfx + string([]byte{c}) + "q")
+}
+
 // hC05Req: application request headers reach the backend with the same names and (multi-)values.
 func hC05Req() {
 	cfg, ok := pickAdapterCfg()
@@ -40,6 +54,8 @@ func hC05Req() {
 	p.req.Header["X-Data-Bin"] = []string{"AAEC/w=="}
 	p.req.Header["Authorization"] = []string{"Bearer " + string(v)}
 	p.req.Header["User-Agent"] = []string{"ua/1"}
+	symName := appHeaderName("hname")
+	p.req.Header[symName] = []string{string(v[1:])}
 	p.tr.ServeHTTP(p.sink, p.req)
 	rec := &p.backend.rec
 	if rec.calls == 0 {
@@ -52,6 +68,7 @@ func hC05Req() {
 	verifAssert(headerHas(rec.header, "X-Data-Bin", []string{"AAEC/w=="}), "C05: -bin header reaches the backend unchanged")
 	verifAssert(headerHas(rec.header, "Authorization", []string{"Bearer " + string(v)}), "C05: Authorization reaches the backend unchanged")
 	verifAssert(headerHas(rec.header, "User-Agent", []string{"ua/1"}), "C05: User-Agent reaches the backend unchanged")
+	verifAssert(headerHas(rec.header, symName, []string{string(v[1:])}), "C05: an application header with an arbitrary name reaches the backend unchanged")
 }
 
 func isStatusKey(k string) bool {
@@ -62,7 +79,16 @@ func isStatusKey(k string) bool {
 // hC05Resp: response headers and trailers set by the handler reach the client, trailers at the
 // position the client's protocol defines; protocol status keys never appear as application metadata.
 func hC05Resp() {
-	cfg, ok := pickAdapterCfg()
+	// thorough: either the wide configuration space with the fixed name pairs, or the adapter family with a
+	// symbolic header / trailer name
+	symbolicNames := verifTier() == 1 && verifChoose("slice", 2) == 1
+	var cfg *pipeCfg
+	var ok bool
+	if symbolicNames {
+		cfg, ok = pickAdapterCfgNarrow()
+	} else {
+		cfg, ok = pickAdapterCfg()
+	}
 	if !ok {
 		return
 	}
@@ -84,6 +110,21 @@ func hC05Resp() {
 	script := &respScript{msgs: []wireMsg{{abstract: []byte{'r'}}}}
 	script.respHdrs = http.Header{"X-Resp": {string(v[:1]), "h2"}, "X-Resp-Bin": {"AAEC"}}
 	script.trailerHdrs = http.Header{"X-Trail": tvals, "X-Trail-Bin": {"/w=="}}
+	// names next to control headers: quick picks from four fixed pairs, thorough makes one of the two symbolic
+	pair := [4][2]string{{"Content-Zq", "Zq"}, {"Zq", "Accept-Zq"}, {"Accept-9q", "Content-9q"}, {"X-Zq", "X-9q"}}[verifChoose("names", 4)]
+	symHdr, symTrl := pair[0], pair[1]
+	if symbolicNames {
+		if verifChoose("symbolicName", 2) == 0 {
+			symHdr = appHeaderName("rname")
+		} else {
+			symTrl = appHeaderName("tname")
+		}
+	}
+	if symHdr == symTrl {
+		return // one name as header and trailer at once: where it ends up is not defined
+	}
+	script.respHdrs[symHdr] = []string{"hv"}
+	script.trailerHdrs[symTrl] = []string{"tv"}
 	if target == ProtocolGRPC {
 		switch verifChoose("announce", 4) {
 		case 1:
@@ -126,6 +167,7 @@ func hC05Resp() {
 	head := p.sink.headSnap
 	verifAssert(headerHas(head, "X-Resp", []string{string(v[:1]), "h2"}), "C05: multi-valued response header reaches the client")
 	verifAssert(headerHas(head, "X-Resp-Bin", []string{"AAEC"}), "C05: -bin response header reaches the client")
+	verifAssert(headerHas(head, symHdr, []string{"hv"}), "C05: a response header with an arbitrary name reaches the client")
 	if cfg.client == cfREST {
 		verifReach("rest-client-headers-only")
 		return // the property defines trailer positions for the RPC client forms only
@@ -140,6 +182,7 @@ func hC05Resp() {
 	} else {
 		verifAssert(headerHas(tr, "X-Trail", tvals), "C05: multi-valued trailer delivered at the position the client's protocol defines")
 		verifAssert(headerHas(tr, "X-Trail-Bin", []string{"/w=="}), "C05: -bin trailer delivered at the position the client's protocol defines")
+		verifAssert(headerHas(tr, symTrl, []string{"tv"}), "C05: a trailer with an arbitrary name is delivered at the position the client's protocol defines")
 	}
 	// status keys never leak into application metadata
 	if cfg.client == cfConnectStream || cfg.client == cfConnectUnary || cfg.client == cfConnectGet || cfg.client == cfREST {
